@@ -67,7 +67,8 @@ func c18Configs(tier string) []c18Cfg {
 	for _, k := range []string{"direct", "analytic", "counting", "global"} {
 		out = append(out, c18Cfg{k, "drop", "P", "panic"})
 	}
-	out = append(out, c18Cfg{"direct", "drop", "E", "panic"}, c18Cfg{"direct", "drop", "PE", "panic"}, c18Cfg{"analytic", "block", "PE", "panic"})
+	out = append(out, c18Cfg{"direct", "drop", "E", "panic"}, c18Cfg{"direct", "drop", "PE", "panic"}, c18Cfg{"analytic", "block", "PE", "panic"},
+		c18Cfg{"direct", "drop", "P", "panic-async"}, c18Cfg{"counting", "drop", "P", "panic-async"}, c18Cfg{"direct", "drop", "PS", "panic-async"}, c18Cfg{"tumbling-evt", "drop", "PS", "panic-async"})
 	if tier == "thorough" {
 		for _, k := range c18KindOrder {
 			for _, sink := range []string{"panic", "reenter-stats"} {
@@ -129,7 +130,22 @@ func c18Run(cfg c18Cfg) explore.RunFunc {
 					sched.Recv(blockCh)
 				}
 			}
-			s.AddSyncSink(sink)
+			if cfg.Sink == "panic-async" {
+				// the same body registered as an asynchronous sink (runs on the sink worker pool)
+				s.AddSink(func(rows []map[string]any) {
+					o.sinkCalls++
+					if stopReturned {
+						o.sinkAfterStop++
+					}
+					if o.sinkCalls == 1 {
+						o.panicked = true
+						panic("async sink panics on its first batch")
+					}
+					o.deliveredAfterPanic = true
+				})
+			} else {
+				s.AddSyncSink(sink)
+			}
 			var wg vsync.WaitGroup
 			nP := 0
 			for _, th := range cfg.Threads {
@@ -217,7 +233,7 @@ func c18Oracle(cfg c18Cfg, res *sched.Result, o *c18Obs) *explore.Failure {
 	if o.stopVirtualNs >= grace || o.secondStopNs >= grace {
 		return fail("stop-needed-grace-timer", fmt.Sprintf("with well-behaved sinks Stop returned only through its 5s grace timer (Stop %d ns, second Stop %d ns)", o.stopVirtualNs, o.secondStopNs))
 	}
-	if cfg.Sink == "panic" && !strings.Contains(cfg.Threads, "S") {
+	if (cfg.Sink == "panic" || cfg.Sink == "panic-async") && !strings.Contains(cfg.Threads, "S") {
 		// rows offered to the engine: 2 per producer, 1 per EmitSync caller; each is one batch for these kinds
 		want := 2*strings.Count(cfg.Threads, "P") + strings.Count(cfg.Threads, "E")
 		if o.sinkCalls < want {
@@ -283,7 +299,7 @@ func (c18) Run(u fw.Unit) fw.Result { return runSched("C18", u, c18Scenarios(u.T
 func (c18) Describe(tier string) fw.Description {
 	return fw.Description{
 		Level: "model_checking",
-		Rule: "stateless DFS over all schedules (<= bound deviations, all blocking-switch and select choices, virtual clock) of closed harnesses on the real Streamsql instance: 11 query kinds (direct, analytic, MATCH_RECOGNIZE, tumbling/sliding/session in event and processing time, counting, global) x {drop, block, expand} with buffers of 2 and threads P(Emit x2) || S(Stop) || A(AddSink), plus thread subsets with GetStats / TriggerWindow / EmitSync / two producers and sink variants (panicking, calling GetStats or AddSink re-entrantly, blocking for ever) on selected kinds; then a second Stop, an Emit after Stop and 700 ms of virtual time; monitors: no escaped panic, no deadlock, Stop returns without its 5 s grace timer unless a sink blocks for ever, no sink invocation after Stop returned, Emit after Stop reaches no sink, no engine goroutine left; non-trivial = reached through >= 1 deviation",
+		Rule: "stateless DFS over all schedules (<= bound deviations, all blocking-switch and select choices, virtual clock) of closed harnesses on the real Streamsql instance: 11 query kinds (direct, analytic, MATCH_RECOGNIZE, tumbling/sliding/session in event and processing time, counting, global) x {drop, block, expand} with buffers of 2 and threads P(Emit x2) || S(Stop) || A(AddSink), plus thread subsets with GetStats / TriggerWindow / EmitSync / two producers and sink variants (panicking synchronous and asynchronous sinks - without a concurrent Stop every later row must still be delivered and nothing may escape through EmitSync -, calling GetStats or AddSink re-entrantly, blocking for ever) on selected kinds; then a second Stop, an Emit after Stop and 700 ms of virtual time; monitors: no escaped panic, no deadlock, Stop returns without its 5 s grace timer unless a sink blocks for ever, no sink invocation after Stop returned, Emit after Stop reaches no sink, no engine goroutine left; non-trivial = reached through >= 1 deviation",
 		Bounds:      map[string]any{"deviations": "quick: 2 with every non-default choice costing 1; thorough: 1 with free choices at blocking points (time-capped)", "threads": "3-4 harness threads + engine goroutines", "buffers": 2},
 		Assumptions: []string{"memory-level data races are outside the scheduler's view: covered by the separate free-running -race pass (bin/racepass)", "virtual time: 'within its grace period' is decided as 'the 5 s timer did not have to fire'"},
 	}
